@@ -19,7 +19,14 @@ bytes, mid-response, while idle - or closed by the client at the end.  In a shar
 of the runs the transport reports the loss synchronously from inside
 loseConnection()/abortConnection() (as in-memory transports do), i.e. the loss
 point lies INSIDE the channel's own close request at the end of a non-persistent
-response or of an idle time-out.
+response or of an idle time-out.  Request bodies that are chunked, or announced with
+a Content-Length of 100000 bytes or more (a few runs), are kept by the server in a
+real temporary file; in 30% of the runs the device under it is failing: closing
+such a file reports an OSError (EIO, ENOSPC, EDQUOT, EACCES, EBADF, EINTR - drawn
+per file) at the moment the response of the request that owns it finishes.  The
+body has long been consumed and the response is complete, so this is no business
+of anybody waiting on notifyFinish(): finish() must return and every clause below
+holds unchanged.
 
 Oracle: (1) when request k+1 is handed to the application, request k's finish()
 has been called and the bytes written so far parse as exactly k complete
@@ -30,6 +37,9 @@ was obtained while the Deferreds of its request were being fired (it belongs to 
 request whose response finishes / whose connection is lost in that very pass);
 (4) nothing reaches the transport after connectionLost.
 """
+import errno
+import os
+
 from twisted.python.failure import Failure
 
 from detsim import net
@@ -48,7 +58,9 @@ COMPONENTS = {
     "real": ["twisted.web.http.HTTPChannel (_handlingRequest/_dataBuffer/requestDone/pauseProducing/resumeProducing/timeoutConnection/connectionLost)",
              "twisted.web.http.Request.notifyFinish/finish/_cleanup/connectionLost/registerProducer", "twisted.protocols.policies.TimeoutMixin on the simulated clock"],
     "stub": ["TCP transport with a small send buffer (detsim.net.SimTransport, hwm) and injected connection loss", "the client (scripted requests, reads at tape-chosen times)",
-             "the application (finishes now / later / through a push producer / never)"],
+             "the application (finishes now / later / through a push producer / never)",
+             "the device under the temporary files of spooled request bodies (the name `tempfile` inside twisted.web.http is rebound for the run to a "
+             "pass-through whose TemporaryFile() objects are real temporary files that may report an injected errno from close())"],
 }
 RULE = ("run = 1-6 pipelined requests delivered in tape-chosen pieces, interleaved with application steps, client reads, clock advances (idle time-out "
         "5 s / 60 s / none) and, in 60% of the runs, a connection loss at a tape-chosen event boundary; every run ends with the connection going away; "
@@ -57,6 +69,9 @@ RULE = ("run = 1-6 pipelined requests delivered in tape-chosen pieces, interleav
         "30% of the notification callbacks/errbacks ask for another notifyFinish() from inside the callback, and 45% of the callbacks of such Deferreds do so "
         "again (nesting depth <= 3): of the request that is unfinished at that moment, else of the same request, i.e. while that request's Deferreds are "
         "being fired because its response finished / its connection was lost (full verdict for both: fires exactly once, None / failure as the pass); "
+        "chunked request bodies, and in 3% of the runs one body of 100000-100002 bytes with a Content-Length, live in a temporary file; in 30% of the runs "
+        "the disk is failing: 60% of these files report an OSError (errno drawn from EIO/ENOSPC/EDQUOT/EACCES/EBADF/EINTR) from the close() that follows "
+        "finish() of the request that owns them (same verdicts as without the fault; finish() must not raise); "
         "non-trivial = at least two requests reached the application, or one did and the connection was lost while its response was unfinished")
 ASSUMPTIONS = ["notifyFinish() is requested before the response finishes or the connection is lost, or WHILE the Deferreds of that request are being fired "
                "(from inside a callback/errback of one of them, any nesting depth): such a Deferred is a notifyFinish Deferred of a request whose response "
@@ -71,12 +86,24 @@ ASSUMPTIONS = ["notifyFinish() is requested before the response finishes or the 
                "how many of the pipelined requests are served after a request that allows the server to close (HTTP/1.0, Connection: close) is not "
                "part of the statement: only requests that reached the application are judged",
                "the application does not call finish() on a request whose notifyFinish already failed (documented to raise); it may still call write()",
-               "requests are well-formed (malformed input belongs to C19)"]
+               "requests are well-formed (malformed input belongs to C19)",
+               "an OS error from closing the temporary file of a request body is an environment fault the notifyFinish clause is quantified over where the "
+               "code under test itself treats it as survivable: Request._cleanup() (response finished) closes the file under `except OSError` before it "
+               "fires the Deferreds, so 'fires with None when its response finishes' must hold under it.  The same error on the connection-loss path "
+               "(Request.connectionLost() closes the body file of an unfinished request) is injected in the share CLOSE_FAULT_ON_LOSS_P of the "
+               "failing-disk runs: before the round-5 repair of /repo (8d4e387) that close had no guard, the OSError escaped from "
+               "HTTPChannel.connectionLost and the Deferreds of that and of all later requests never fired "
+               "(fixed finding C21:connectionLost-raised:lose:OSError and subclasses)"]
 cleanup = H.cleanup
 
 BEHAVIOURS = ["sync", "later", "producer", "never", "later"]
 # request-side Connection header values: the close / keep-alive options in any case, alone and in comma lists
 CONN_VALUES = [b"close", b"keep-alive", b"Close", b"Keep-Alive", b"CLOSE", b"KEEP-ALIVE", b"keep-alive, close", b"close, TE", b"TE, keep-alive"]
+# what a failing / full / network disk reports when a spooled request body is closed (OSError and subclasses of it)
+CLOSE_ERRNOS = ["EIO", "ENOSPC", "EDQUOT", "EACCES", "EBADF", "EINTR"]
+# share of the failing-disk runs in which a spool file's close() may ALSO fail on the connection-loss path (Request.connectionLost closes the
+# body file of an unfinished request).  That path had no `except OSError` before /repo 8d4e387 (fixed finding C21:connectionLost-raised:lose:OSError).
+CLOSE_FAULT_ON_LOSS_P = 0.7
 NEST_MAX = 3     # a notification callback may ask for another notification, whose callback may again ... up to this depth
 PAYLOADS = [b"", b"hello", b"x" * 40, b"\r\n0\r\n\r\n", b"HTTP/1.1 200 OK\r\n\r\n", b"y" * 9]
 
@@ -106,6 +133,11 @@ def run(sim):
     inject_loss = sim.draw_bool(0.6, "inject-loss")
     loss_at = sim.draw_int(1, 45, "loss-at") if inject_loss else None
     sync_loss = sim.draw_bool(0.25, "sync-loss")     # the transport reports a loss from inside loseConnection()/abortConnection()
+    # the device request bodies are spooled to (chunked uploads and uploads of >= 100000 bytes live in a real temporary file) reports an
+    # error when such a file is closed; which files, and which errno, is drawn when the file is created
+    failing_disk = sim.draw_bool(0.3, "failing-disk")
+    fault_on_loss = CLOSE_FAULT_ON_LOSS_P > 0 and failing_disk and sim.draw_bool(CLOSE_FAULT_ON_LOSS_P, "close-fault-on-loss")
+    big_upload = sim.draw_int(0, nreq - 1, "big-upload-index") if sim.draw_bool(0.03, "big-upload") else None
     plans = []
     stream = bytearray()
     bounds = []
@@ -120,6 +152,9 @@ def run(sim):
         http10 = sim.draw_bool(0.15 if last else 0.03, "http10")
         fr = sim.draw_choice(["none", "length"] if http10 else ["none", "length", "chunked"], "req-framing")
         body = sim.draw_choice([b"abc", b"", b"0123456789" * 3], "req-body")
+        if i == big_upload:
+            # an upload announced with a Content-Length at / just above the size from which the body is spooled to a temporary file
+            fr, body = "length", b"u" * (100000 + sim.draw_int(0, 2, "big-upload-extra"))
         conn = sim.draw_choice(CONN_VALUES, "conn-value") if sim.draw_bool(0.25 if last else 0.06, "conn-header") else None
         close = conn is not None
         if http10:
@@ -144,7 +179,8 @@ def run(sim):
         stream += w
         bounds.append(len(stream))
     stream = bytes(stream)
-    sim.config = {"nreq": nreq, "timeout": timeout, "hwm": hwm, "loss_at": loss_at, "sync_loss": sync_loss, "behaviours": [p["beh"] for p in plans]}
+    sim.config = {"nreq": nreq, "timeout": timeout, "hwm": hwm, "loss_at": loss_at, "sync_loss": sync_loss, "behaviours": [p["beh"] for p in plans],
+                  "failing_disk": failing_disk, "close_fault_on_loss": bool(fault_on_loss), "big_upload": big_upload}
 
     recs = []
     active = []          # [rec, request, remaining writes, producer]
@@ -153,6 +189,31 @@ def run(sim):
 
     def full_body(idx):
         return b"%d:" % idx + b"".join(plans[idx]["pieces"])
+
+    def spool_file(real):
+        # twisted.web.http asked for a temporary file to keep a request body in
+        f = H.SpoolFile(real, close_error)
+        f.errno_name = sim.draw_choice(CLOSE_ERRNOS, "close-errno") if failing_disk and sim.draw_bool(0.6, "close-fails") else None
+        sim.probe("request_body_in_temporary_file")
+        return f
+
+    def close_error(f):
+        """First close() of a spool file: the errno the device reports, if any.  The error is injected where the body file of a request is
+        closed because its response FINISHED (finish() was called on the request that owns the file).  A close on the connection-loss path
+        (the file of a request that is unfinished, or that never reached the application) fails only with the knob CLOSE_FAULT_ON_LOSS_P."""
+        rec = f.owner
+        if f.errno_name is None:
+            return None
+        at_finish = rec is not None and rec.finish_called
+        if not at_finish and not fault_on_loss:
+            return None
+        sim.fault("spool_file_close_oserror_at_%s" % ("finish" if at_finish else "connection_loss"))
+        sim.event("spool-close-error", -1 if rec is None else rec.idx, f.errno_name)
+        if at_finish and state["lost"]:
+            sim.probe("spool_file_close_oserror_after_loss_inside_close_request")
+        return getattr(errno, f.errno_name)
+
+    H.install_tempfile_seam(sim, spool_file)
 
     def add_note(rec, req, same_request_reentrant=False, depth=0):
         seen = []
@@ -237,6 +298,12 @@ def run(sim):
         recs.append(rec)
         methods.append(req.method)
         sim.event("process", idx, plan["beh"])
+        if isinstance(req.content, H.SpoolFile):
+            req.content.owner = rec       # the body of this request lives in a temporary file
+            if idx == big_upload:
+                sim.probe("request_body_spooled_because_of_its_length")
+            if req.content.errno_name is not None:
+                sim.probe("request_with_failing_spool_file_reached_application")
         # (1) one at a time, and only after the previous response is complete on the wire
         sim.check("two-requests-in-application", not active, "process",
                   lambda: "request %d handed over while request %d is unfinished" % (idx, active[0][0].idx))
@@ -267,7 +334,8 @@ def run(sim):
             app_step()
 
     srv = H.Server(sim, app, timeout=timeout, hwm=hwm, sync_loss=sync_loss)
-    pieces = net.cut(sim, stream, boundaries=bounds)
+    # (a 100000-byte upload is not delivered byte by byte)
+    pieces = net.cut(sim, stream, style=None if big_upload is None else sim.draw_choice(["whole", "one", "few", "edges"], "cutstyle-big"), boundaries=bounds)
     queue = list(pieces)
 
     def loss_begins():
@@ -419,5 +487,8 @@ MUTANTS = [
     'CAUGHT http.py HTTPChannel.rawDataReceived: do not buffer a pipelined POST while a request is handled -> server-raised:drive:AttributeError',
     'SURVIVED (equivalent) http.py Request._cleanup: do not reset `self.notifications = []`: the finished request is removed from channel.requests, so nothing fires the list again',
     'CAUGHT (round 4) http.py HTTPChannel.requestDone: non-persistent branch calls loseConnection() BEFORE the finished request is removed from channel.requests (a transport that reports the loss inside loseConnection() makes the finished request fail) -> notify-failure-without-loss:errback',
+    'CAUGHT (round 5) http.py Request._cleanup: drop the `try/except OSError` around `self.content.close()` (a failing disk under the spooled body of a '
+    'chunked / large upload: finish() raises into the application, the Deferreds never fire) -> finish-raised:finish:OSError (and :PermissionError, '
+    ':InterruptedError - the witness carries the exception class of the drawn errno); also CAUGHT: narrow the guard to `except PermissionError` -> finish-raised:finish:OSError',
     'CAUGHT (round 4, second pass) http.py Request._cleanup/connectionLost: detach the notification list before firing (a notifyFinish() requested from inside a notification callback/errback of the same request, i.e. while the pass runs, never fires) -> notify-on-finish:requested-during-notification / notify-on-loss:requested-during-notification; first judged outside the statement, but the Deferred belongs to a request whose response finishes / connection is lost in that very pass; only requests made after the pass returned get no verdict (none are made)',
 ]
